@@ -1,11 +1,15 @@
 import PaletteModel.Proto
 import PaletteModel.StimulusDriver
+import PaletteModel.LutDriver
+import PaletteModel.TransferDriver
 
 open Proto
 
 def dispatch (op : String) (cfg inp outp : List String) : Verdict :=
   match op with
   | "stim" => Stim.handle cfg inp outp
+  | "curve" => Transfer.handle cfg inp outp
+  | "lutenc" | "lutdec" | "lutenc16" | "lutdec16" => Lut.handle op cfg inp outp
   | _ => .bad s!"unknown op {op}"
 
 structure DrvAcc where
